@@ -1,4 +1,5 @@
 import BigtoolsModel.BedZoomCompose
+import BigtoolsModel.FiltersGen
 import BigtoolsModel.Tiler4
 import BigtoolsModel.SweepProof
 import BigtoolsModel.ZoomQueryBytes
@@ -82,3 +83,14 @@ theorem C08_zoom_sectioning_preserves_the_record_stream (ips : Nat) (hips : 0 < 
   cutZoomSectionsAt_bytes ips hips recs cuts
 
 end BW
+
+namespace BBI
+open CD
+
+/-- **The code's own zoom-record filter** (`get_zoom_block_values`, both byte orders), regenerated from bbiread.rs on every
+    run, is the `zKeep` of the zoom query theorem. -/
+theorem C08_source_zoom_filter_is_zKeep (c qs qe : Nat) (r : ZRec) :
+    Gen.zoom_keep_0 r.chrom c r.start r.stop qs qe = zKeep c qs qe r ∧ Gen.zoom_keep_1 r.chrom c r.start r.stop qs qe = zKeep c qs qe r :=
+  ⟨gen_zoom_filter_0 c qs qe r, gen_zoom_filter_1 c qs qe r⟩
+
+end BBI
